@@ -43,6 +43,7 @@ class Contract:
         self.ghost_entry = _lst(kw.pop("ghost_entry", []))   # ghost statements run at entry
         self.ghost_exit = _lst(kw.pop("ghost_exit", []))     # ghost statements run at normal exit
         self.pure = kw.pop("pure", False)
+        self.havoc_all = kw.pop("havoc_all", False)    # runs foreign code synchronously (coroutine.close): everything may change, no time passes
         self.inline = kw.pop("inline", False)        # verify here, but callers inline the body
         self.no_invariants = kw.pop("no_invariants", False)
         self.inv_scope = kw.pop("inv_scope", None)     # None = all; else list of 'Class' / 'Class.name' this function relies on / re-establishes
